@@ -6,5 +6,6 @@ export CARGO_NET_OFFLINE=true
 mkdir -p .cache/work evidence/replay
 [ -f harness/Cargo.lock ] || cp /repo/Cargo.lock harness/Cargo.lock
 ( cd harness && cargo build --offline --bins 2>&1 | tail -3 )
-( cd coq && coq_makefile -f _CoqProject -o Makefile >/dev/null && timeout 3000 make -j16 2>&1 | grep -v "^COQ\|Closed under" | tail -20 )
+python3 -c "import sys; sys.path.insert(0,'lib'); import vlib; vlib.coq_makefile()"
+( cd coq && timeout 3000 make -j16 2>&1 | grep -v "^COQ\|Closed under" | tail -20 )
 echo setup-done
